@@ -2050,6 +2050,35 @@ def do_selftest():
         good = accepted == want_accept
         print("  %-75s %s -> %s %s" % (name, prop, "accepted" if accepted else "rejected at %s" % (tv["progress"][1],), "ok" if good else "UNEXPECTED"))
         ok = ok and good
+    # the allocator's step-by-step specification
+    import copy
+    wsc = [{"id": 1, "arch": "a64", "src": 0x7ff612347800, "free_blocks": [-2049, -2048, 5]},
+           {"id": 2, "arch": "a64", "src": 0x7ff612347800, "free_blocks": []}]
+    wg, _, _ = vlib.run_harness("winsim", wsc, "selftest_winsim")
+    base, exh = wg[1], wg[2]
+
+    def without(evs, pred):
+        k = next(i for i, e in enumerate(evs) if pred(e))
+        return evs[:k] + evs[k + 1:]
+
+    def changed(evs, pred, **kw):
+        out = copy.deepcopy(evs)
+        e = next(x for x in out if pred(x))
+        e.update(kw)
+        return out
+    cases = [("allocator: unmodified", base, True), ("allocator: unmodified (window exhausted)", exh, True),
+             ("allocator: a rejected block is not given back", without(base, lambda e: e["ev"] == "Release"), False),
+             ("allocator: the returned block is not the granted one", changed(base, lambda e: e["ev"] == "Result", addr=[0, 0, 1, 0, 0, 0, 0, 0]), False),
+             ("allocator: a hint below the window", changed(base, lambda e: e["ev"] == "Try", hint=[0, 0x78, 0x34, 0x02, 0xf6, 0x7f, 0, 0]), False),
+             ("allocator: gives up before the window is exhausted", changed(exh, lambda e: e["ev"] == "Result", tries=exh[-1]["tries"] - 1), False),
+             ("allocator: an out-of-reach block accepted", [e for e in base if e["ev"] in ("AllocBegin",)] + [next(e for e in base if e["ev"] == "Try")]
+              + [dict(next(e for e in base if e["ev"] == "Result"), addr=next(e for e in base if e["ev"] == "Try")["ret"])], False)]
+    for name, evs, want_accept in cases:
+        tv = tlc.validate_traces("Trace_Alloc", "Trace_Alloc", [(1, evs)], WORK, "trace_selftest_alloc", timeout=600)
+        accepted = 1 in tv["accepted"]
+        good = accepted == want_accept
+        print("  %-75s C11 -> %s %s" % (name, "accepted" if accepted else "rejected at %s" % (tv["progress"][1],), "ok" if good else "UNEXPECTED"))
+        ok = ok and good
     print("selftest:", "PASS" if ok else "FAIL")
     return 0 if ok else 1
 
